@@ -388,6 +388,7 @@ func newClient(p Persistence, config *Config) *Client {
 func (c *Client) Close() error {
 	// halt context (interrupts dial & connect)
 	c.cancel()
+	verifYield("close.cancel")
 
 	// block connection control
 	conn, ok := <-c.connSem
@@ -395,6 +396,7 @@ func (c *Client) Close() error {
 		// already closed
 		return nil
 	}
+	verifYield("close.locked")
 	defer func() {
 		// signal offline
 		blockSignalChan(c.onlineSig)
@@ -434,12 +436,14 @@ func (c *Client) Close() error {
 func (c *Client) Disconnect(quit <-chan struct{}) error {
 	// halt context (interrupts dial & connect)
 	c.cancel()
+	verifYield("disconnect.cancel")
 
 	// block connection control
 	conn, ok := <-c.connSem
 	if !ok {
 		return fmt.Errorf("%w; DISCONNECT not send", ErrClosed)
 	}
+	verifYield("disconnect.locked")
 	defer func() {
 		// signal offline
 		blockSignalChan(c.onlineSig)
@@ -564,6 +568,7 @@ func blockSignalChan(ch chan chan struct{}) {
 }
 
 func (c *Client) toOffline() {
+	verifYield("offline.enter")
 	select {
 	case _, ok := <-c.writeSem:
 		if !ok {
@@ -585,6 +590,7 @@ func (c *Client) toOffline() {
 	c.bigMessage = nil // lost
 	c.bufr = nil
 	c.peek = nil // applied to prevous r, if any
+	verifYield("offline.break")
 
 	select {
 	case ack := <-c.pingAck:
@@ -618,6 +624,7 @@ func (c *Client) lockWrite(quit <-chan struct{}) (net.Conn, error) {
 				return conn, nil
 			}
 
+			verifYield("lockwrite.wait")
 			if checkConnect == nil {
 				checkConnect = time.NewTicker(20 * time.Millisecond)
 				defer checkConnect.Stop()
@@ -645,9 +652,11 @@ func (c *Client) write(quit <-chan struct{}, p []byte) error {
 
 	err = writeTo(conn, p, c.PauseTimeout)
 	if err != nil {
+		verifYield("write.err")
 		if !nonNilIsAny(err, connClosedErrors) {
 			conn.Close() // signal read routine
 		}
+		verifYield("write.unlock")
 		c.writeSem <- connPending // unlock write; pending connect
 		return errors.Join(ErrSubmit, err)
 	}
@@ -665,9 +674,11 @@ func (c *Client) writeBuffers(quit <-chan struct{}, p net.Buffers) error {
 
 	err = writeBuffersTo(conn, p, c.PauseTimeout)
 	if err != nil {
+		verifYield("write.err")
 		if !nonNilIsAny(err, connClosedErrors) {
 			conn.Close() // signal read routine
 		}
+		verifYield("write.unlock")
 		// unlock write; pending connect
 		c.writeSem <- connPending
 		return errors.Join(ErrSubmit, err)
@@ -693,9 +704,11 @@ func (c *Client) writeBuffersNoWait(p net.Buffers) error {
 	// transfer
 	err := writeBuffersTo(conn, p, c.PauseTimeout)
 	if err != nil {
+		verifYield("write.err")
 		if !nonNilIsAny(err, connClosedErrors) {
 			conn.Close() // signal read routine
 		}
+		verifYield("write.unlock")
 		// unlock write; pending connect
 		c.writeSem <- connPending
 		return errors.Join(ErrSubmit, err)
@@ -890,6 +903,7 @@ func (c *Client) connect() error {
 	if !ok {
 		return ErrClosed
 	}
+	verifYield("connect.locked")
 	// No need for further closed channel checks as the
 	// connSem lock is required to close any of them.
 
@@ -925,6 +939,7 @@ func (c *Client) connect() error {
 	<-c.writeSem
 
 	c.connSem <- conn // unlock (for interruption of resends)
+	verifYield("connect.resend")
 
 	err = c.resend(conn, c.orderedTxs.Acked, &atLeastOnceSeq, atLeastOnceIDSpace)
 	c.atLeastOnce.seqSem <- atLeastOnceSeq // unlock
@@ -942,6 +957,7 @@ func (c *Client) connect() error {
 		return err
 	}
 
+	verifYield("connect.release")
 	// update signals
 	blockSignalChan(c.offlineSig)
 	clearSignalChan(c.onlineSig)
@@ -974,6 +990,7 @@ func (c *Client) dialAndConnect(config *Config) (net.Conn, *bufio.Reader, error)
 		}
 		return nil, nil, err
 	}
+	verifYield("dial.done")
 	// “After a Network Connection is established by a Client to a Server,
 	// the first Packet sent from the Client to the Server MUST be a CONNECT
 	// Packet.”
@@ -996,6 +1013,7 @@ func (c *Client) dialAndConnect(config *Config) (net.Conn, *bufio.Reader, error)
 
 	bufr, err := c.handshake(conn, config, clientID)
 	// ⚠️ delayed error check
+	verifYield("handshake.done")
 
 	done <- struct{}{}
 	e := <-abort
